@@ -205,7 +205,8 @@ pub trait ClientHello<'a> {
     // Get the first part (4 bytes) of random
     fn rand_time(&self) -> u32 {
         self.random()
-            .try_into()
+            .get(..4)
+            .and_then(|s| s.try_into().ok())
             .map(u32::from_be_bytes)
             .unwrap_or(0)
     }
